@@ -30,19 +30,50 @@ def _walk_own(fnode):
     while todo:
         n = todo.pop()
         yield n
+        if isinstance(n, (ast.FunctionDef, ast.AsyncFunctionDef, ast.Lambda, ast.ClassDef)):
+            continue
         for c in ast.iter_child_nodes(n):
             if isinstance(c, (ast.FunctionDef, ast.AsyncFunctionDef, ast.Lambda, ast.ClassDef)):
                 continue
             todo.append(c)
 
 
+def _is_pymodel(filename):
+    return '/pymodels/' in filename.replace('\\', '/')
+
+
+def join_slist(interp, sep, xs):
+    """str.join over a symbolic-length sequence: interpreted from the Python model in pymodels/str_model.py
+    with the loop invariant attached to the call site, keyed 'join#k' (k-th such join of the function)."""
+    from .pymodels import str_model
+    target = None
+    for fr in reversed(interp.frame_stack):
+        if not _is_pymodel(fr.info.filename):
+            target = fr
+            break
+    if target is None:
+        return NotImplemented
+    k = target.join_counter
+    target.join_counter = k + 1
+    if (target.info.filename, target.info.qualname, 'join#%d' % k) not in interp.reg.loops_by_key:
+        return NotImplemented        # no call-site invariant: the caller falls back to the algebraic model
+    saved = target.model_site
+    target.model_site = 'join#%d' % k
+    try:
+        return interp.call(str_model.join, [sep, xs], {})
+    finally:
+        target.model_site = saved
+
+
 def find_spec(interp, frame, node):
     ordinal = loop_ordinal(frame.info, node)
-    if frame.info.filename.endswith('functools_model.py'):
+    if _is_pymodel(frame.info.filename):
         # library model: the invariant belongs to the call site (the nearest repository frame)
         for fr in reversed(interp.frame_stack):
-            if not fr.info.filename.endswith('functools_model.py'):
-                key = 'reduce#%d' % fr.reduce_site
+            if not _is_pymodel(fr.info.filename):
+                if fr.model_site is None and fr.reduce_site is None:
+                    return None, ordinal      # an ordinary loop of a Python-level model (no call-site spec)
+                key = fr.model_site if fr.model_site is not None else 'reduce#%d' % fr.reduce_site
                 spec = interp.reg.loops_by_key.get((fr.info.filename, fr.info.qualname, key))
                 return spec, key
         return None, ordinal
@@ -73,6 +104,17 @@ def assigned_names(body_nodes):
     return names, attrs, mutated
 
 
+def _oblige_conjuncts(st, name, goal, meta):
+    """one instance of the obligation per top-level conjunct of the invariant: smaller queries, and a refuted
+    conjunct gets a counter-model instead of a timeout on the whole conjunction"""
+    t = goal.t if isinstance(goal, SBool) else goal
+    if not isinstance(t, bool) and z3.is_and(t):
+        for c in t.children():
+            st.oblige(name, c, meta)
+    else:
+        st.oblige(name, goal, meta)
+
+
 def _call_pred(interp, pred, env):
     """Call a sidecar predicate, passing the values of the names it asks for."""
     params = _param_names(pred)
@@ -92,13 +134,13 @@ def _param_names(pred):
 
 
 def _env_of(interp, frame, extra):
-    env = {'ghost': interp.st.ghost, 'trace': interp.st.trace}
+    env = {'ghost': interp.st.ghost, 'trace': interp.st.trace}     # ghost state / events (unless shadowed by a local)
     if interp.collect is not None:
         env['yielded'] = interp.collect[1]
-    if frame.info.filename.endswith('functools_model.py'):
+    if _is_pymodel(frame.info.filename):
         # library model: the call site's names are visible to the invariant
         for fr in reversed(interp.frame_stack):
-            if not fr.info.filename.endswith('functools_model.py'):
+            if not _is_pymodel(fr.info.filename):
                 for d in fr.enclosing:
                     env.update(d)
                 env.update(fr.locals)
@@ -107,6 +149,11 @@ def _env_of(interp, frame, extra):
         env.update(d)
     env.update(frame.locals)
     env.update(interp.reg.ghost_env)
+    env['ghost'] = interp.st.ghost       # ghost (monitor) state of models and contracts
+    # indices of the (enclosing) loops with invariants: `_i_<ordinal>`
+    for o, t in getattr(frame, 'loop_index', {}).items():
+        env['_i_%s' % o] = t
+    env.setdefault('trace', interp.st.trace)
     env.update(extra)
     return env
 
@@ -120,10 +167,17 @@ def _havoc(interp, frame, spec, modified_names, tag):
         if isinstance(ty, _MListOf):
             continue
         if ty is None:
-            raise Unsupported('loop %s#%s assigns %r which is not declared in modifies'
-                              % (spec.qname, spec.ordinal, name))
+            # a name the loop specification does not know (a temporary introduced by a later edit of the
+            # function): treated as a loop-local temporary, i.e. UNBOUND at the loop head and after the loop.
+            # Conservative: a read of a value carried over from another iteration or from before the loop
+            # fails (UnboundLocalError on that path) instead of seeing a stale value.
+            ty = 'local'
+        if ty == 'in-place':
+            continue
         if ty == 'local':      # a loop-local temporary: dead at loop head
             frame.locals.pop(name, None)
+            continue
+        if ty == 'iter':
             continue
         frame.locals[name] = ty.make(interp, '%s@%s' % (name, tag))
     from .api import MListOf
@@ -155,6 +209,17 @@ def _havoc(interp, frame, spec, modified_names, tag):
     for name, ty in spec.modifies.items():
         if isinstance(ty, MListOf) and '.' not in name and not name.startswith('ghost:'):
             continue
+        if ty == 'iter':
+            # an iterator over a symbolic sequence that the body advances (nested loops over it, calls that
+            # consume it): its position is arbitrary, but never before the position at loop entry
+            cur = frame.locals.get(name)
+            if not isinstance(cur, models.SIter):
+                raise Unsupported('modifies %r: not an iterator over a symbolic sequence' % name)
+            p0 = to_z3(cur.pos) if not isinstance(cur.pos, int) else z3.IntVal(cur.pos)
+            p1 = interp.st.fresh_int('%s.pos@%s' % (name, tag))
+            interp.st.assume(z3.And(p1 >= p0, z3.Or(p1 <= cur.xs.length, p1 == p0)))
+            cur.pos = wrap(p1)
+            continue
         if name == 'yielded':
             if interp.collect is None:
                 raise Unsupported('modifies yielded outside a generator under verification')
@@ -167,6 +232,21 @@ def _havoc(interp, frame, spec, modified_names, tag):
             # ghost state (interp.st.ghost) changed by models/contracts called in the body
             interp.st.ghost[name[6:]] = ty.make(interp, '%s@%s' % (name, tag))
             continue
+        if ty == 'in-place':
+            # a mutable object (symbolic map, or instance holding one) changed by calls in the body:
+            # its contents are forgotten, its identity is kept
+            obj = frame.locals.get(name) if '.' not in name else None
+            if obj is None and '.' in name:
+                base, _, attr = name.partition('.')
+                obj = frame.locals.get(base)
+                for a in attr.split('.'):
+                    obj = interp.getattr(obj, a) if obj is not None else None
+            if obj is None or not models.havoc_mutable(interp, obj, '%s@%s' % (name, tag)):
+                raise Unsupported('modifies entry %r (in-place): nothing to havoc' % name)
+            if isinstance(obj, (SOpt, SChoice)):
+                obj = interp.resolve(obj)
+            declared_fields.add((id(obj), '*'))      # every field of an object declared in-place may be stored to
+            continue
         if name == 'yielded':
             continue
         if name not in modified_names and ty != 'local' and not name.startswith('@'):
@@ -174,6 +254,17 @@ def _havoc(interp, frame, spec, modified_names, tag):
                 # object field:  'self._x' / 'self._o.segments'
                 parts = name.split('.')
                 obj = frame.locals.get(parts[0])
+                if obj is None:
+                    for d in reversed(frame.enclosing):      # a variable of an enclosing function
+                        if parts[0] in d:
+                            obj = d[parts[0]]
+                            break
+                if obj is None and _is_pymodel(frame.info.filename):
+                    # library model: the names of the call site
+                    for fr in reversed(interp.frame_stack):
+                        if not _is_pymodel(fr.info.filename):
+                            obj = fr.locals.get(parts[0])
+                            break
                 if obj is None:
                     raise Unsupported('modifies entry %r: unknown base' % name)
                 for a in parts[1:-1]:
@@ -197,6 +288,28 @@ def _havoc(interp, frame, spec, modified_names, tag):
             else:
                 frame.locals[name] = ty.make(interp, '%s@%s' % (name, tag))
     return declared_fields
+
+
+def _iter_positions(frame, exempt):
+    """positions of the iterators over symbolic sequences that the frame can see"""
+    out = {}
+    for d in list(frame.enclosing) + [frame.locals]:
+        for name, v in d.items():
+            if isinstance(v, models.SIter) and v is not exempt:
+                out[id(v)] = (name, v, v.pos)
+    return out
+
+
+def _check_iterators_unchanged(spec, before, frame, exempt):
+    """an iterator that the loop body advanced must be declared in modifies (as 'iter'): otherwise the
+    arbitrary iteration would start from the position at loop entry only"""
+    for key, (name, it, pos0) in before.items():
+        same = it.pos is pos0 or (not isinstance(it.pos, int) and not isinstance(pos0, int)
+                                  and to_z3(it.pos).eq(to_z3(pos0))) \
+            or (isinstance(it.pos, int) and isinstance(pos0, int) and it.pos == pos0)
+        if not same and spec.modifies.get(name) != 'iter':
+            raise Unsupported('loop %s#%s advances the iterator %r which is not declared in modifies '
+                              '(%s=\'iter\')' % (spec.qname, spec.ordinal, name, name))
 
 
 def _check_frame(spec, node):
@@ -225,7 +338,7 @@ def exec_while(interp, node, frame):
     label = '%s : loop#%s' % (fname, ordinal)
     # (1) invariant on entry
     inv0 = interp.truth(_call_pred(interp, spec.invariant, _env_of(interp, frame, {})))
-    st.oblige(label + ' invariant[entry]', inv0, {'kind': 'loop-entry'})
+    _oblige_conjuncts(st, label + ' invariant[entry]', inv0, {'kind': 'loop-entry'})
     which = st.choose(2)
     declared_fields = _havoc(interp, frame, spec, modified, 'L%s' % ordinal)
     from . import strings as _strings
@@ -240,17 +353,19 @@ def exec_while(interp, node, frame):
         dec0 = None
         if spec.decreases is not None:
             dec0 = _call_pred(interp, spec.decreases, _env_of(interp, frame, {}))
+        its = _iter_positions(frame, None)
         interp.loop_frame_stack.append({'declared': declared_fields, 'born': set(), 'loop': label})
         try:
             r = interp.exec_block(node.body, frame)
         finally:
             interp.loop_frame_stack.pop()
+        _check_iterators_unchanged(spec, its, frame, None)
         if r is not None and r[0] not in ('continue',):
             if r[0] == 'break':
                 return None
             return r
         inv2 = interp.truth(_call_pred(interp, spec.invariant, _env_of(interp, frame, {})))
-        st.oblige(label + ' invariant[preserved]', inv2, {'kind': 'loop-preserve'})
+        _oblige_conjuncts(st, label + ' invariant[preserved]', inv2, {'kind': 'loop-preserve'})
         if dec0 is not None:
             dec1 = _call_pred(interp, spec.decreases, _env_of(interp, frame, {}))
             st.oblige(label + ' variant[decreases]',
@@ -325,6 +440,9 @@ def _for_symbolic(interp, node, frame, src):
                           % (frame.info.qualname, node.lineno))
     fname = interp.current_function_name()
     label = '%s : loop#%s' % (fname, ordinal)
+    if '.<locals>.' in frame.info.qualname and not _is_pymodel(frame.info.filename):
+        # a loop of a nested function: ordinals count per function
+        label = '%s : %s loop#%s' % (fname, frame.info.qualname.rpartition('.<locals>.')[2], ordinal)
     modified, _targets = _check_frame(spec, node)
     enum_start = None
     it_cell = None
@@ -340,11 +458,16 @@ def _for_symbolic(interp, node, frame, src):
         start = z3.IntVal(0)
     n = xs.length
 
+    entry = _call_pred(interp, spec.entry, _env_of(interp, frame, {})) if getattr(spec, 'entry', None) else None
+
     def env(i):
-        return _env_of(interp, frame, {'_i': wrap(i), '_xs': xs, '_n': wrap(n), '_start': wrap(start)})
+        e = {'_i': wrap(i), '_xs': xs, '_n': wrap(n), '_start': wrap(start), '_entry': entry}
+        if interp.loop_index_stack:
+            e['_o'] = wrap(interp.loop_index_stack[-1])      # index of the enclosing symbolic loop
+        return _env_of(interp, frame, e)
 
     inv0 = interp.truth(_call_pred(interp, spec.invariant, env(start)))
-    st.oblige(label + ' invariant[entry]', inv0, {'kind': 'loop-entry'})
+    _oblige_conjuncts(st, label + ' invariant[entry]', inv0, {'kind': 'loop-entry'})
     which = st.choose(2)
     tag = 'L%s' % ordinal
     declared_fields = _havoc(interp, frame, spec, modified, tag)
@@ -354,12 +477,14 @@ def _for_symbolic(interp, node, frame, src):
         i = st.fresh_int('_i@' + tag)
         st.assume(z3.And(i >= start, i < n))
         st.assume(interp.truth(_call_pred(interp, spec.invariant, env(i))))
+        frame.loop_index[ordinal] = wrap(i)
         x = models.slist_elem(interp, xs, i)
         if enum_start is not None:
             x = (interp.binop(ast.Add, enum_start, wrap(i - start)), x)
         if it_cell is not None:
             it_cell.pos = wrap(i + 1)
         interp.assign(node.target, x, frame)
+        its = _iter_positions(frame, it_cell)
         interp.loop_index_stack.append(i)
         interp.loop_frame_stack.append({'declared': declared_fields, 'born': set(), 'loop': label})
         try:
@@ -367,16 +492,21 @@ def _for_symbolic(interp, node, frame, src):
         finally:
             interp.loop_index_stack.pop()
             interp.loop_frame_stack.pop()
+        _check_iterators_unchanged(spec, its, frame, it_cell)
         if r is not None and r[0] != 'continue':
+            if it_cell is not None and it_cell.eager:
+                raise Unsupported('early exit from a loop over a generator that is used through its contract '
+                                  '(its items and effects are taken at the call: it must be consumed completely)')
             if r[0] == 'break':
                 return None
             return r
         inv2 = interp.truth(_call_pred(interp, spec.invariant, env(i + 1)))
-        st.oblige(label + ' invariant[preserved]', inv2, {'kind': 'loop-preserve'})
+        _oblige_conjuncts(st, label + ' invariant[preserved]', inv2, {'kind': 'loop-preserve'})
         raise PathAbort()
     # exit: all elements consumed
     st.assume(start <= n)
     st.assume(interp.truth(_call_pred(interp, spec.invariant, env(z3.If(start <= n, n, start)))))
+    frame.loop_index[ordinal] = wrap(n)
     if it_cell is not None:
         it_cell.pos = wrap(n)
     if node.orelse:
